@@ -325,10 +325,13 @@ func newTreeExec(via string, c *treeCase) *treeExec {
 		flamego.SetEnv(flamego.EnvTypeTest)
 		x.f = flamego.NewWithLogger(io.Discard)
 		x.f.Use(func(c flamego.Context) { x.chains++ })
-		x.f.NotFound(func(w http.ResponseWriter) {
-			w.WriteHeader(404)
-			_, _ = w.Write([]byte("not found"))
-		})
+		if len(c.H)%2 == 0 {
+			// a user-supplied not-found chain on every other case, the default http.NotFound otherwise
+			x.f.NotFound(func(w http.ResponseWriter) {
+				w.WriteHeader(404)
+				_, _ = w.Write([]byte("not found"))
+			})
+		}
 	}
 	return x
 }
